@@ -315,6 +315,12 @@ class GraphGen:
         elif c == 2:
             v = {('k%d' % i): self.value(depth + 1) for i in range(n)}
             self.kinds.add('dict')
+            if r.chance(0.15):
+                # keys of different types with the same text: still one entry each
+                v[1], v['1'] = self.value(depth + 1), self.value(depth + 1)
+                if r.chance(0.5):
+                    v[2.5], v['2.5'] = 'float key', 'text key'
+                self.kinds.add('dict_keys_with_equal_text')
         elif c == 3:
             v = set(self._hashable() for _ in range(n))
             self.kinds.add('set')
